@@ -104,6 +104,34 @@ func c22(r *core.Run) {
 	a := la.CheckGuarded(r, "C22.Lk1", kadT, "depth", kadT+".depthMu", ex)
 	b := la.CheckGuarded(r, "C22.Lk1", kadT, "radius", kadT+".depthMu", ex)
 	r.Floor("C22.Lk1", "accesses to Kad.depth / Kad.radius", a+b, 5)
+	// Lk2: the recompute itself runs inside the critical section that publishes its result:
+	// recalcDepth walks the peer set; computed outside depthMu, a concurrent mutator (which
+	// recomputes under the lock) can publish first and this stale result overwrites it
+	nrc := 0
+	for _, fn := range funcs {
+		for _, c := range core.Calls(fn, kadPkg+".recalcDepth") {
+			if core.FuncName(rootFn(fn)) == kadPkg+".New" {
+				continue
+			}
+			// only recomputations whose result is published as k.depth
+			published := false
+			for _, u := range core.Uses(c.(*ssa.Call)) {
+				if st, ok := u.(*ssa.Store); ok {
+					if fr, ok := core.AsField(st.Addr); ok && fr.Struct == kadT && fr.Name == "depth" {
+						published = true
+					}
+				}
+			}
+			if !published {
+				continue
+			}
+			nrc++
+			h := la.HeldAt(c)
+			r.Check("C22.Lk2", lsKey("C22.Lk2", fn, "recalcDepth runs with depthMu write-held"), c.Pos(), h != nil && h.Holds(kadT+".depthMu", true),
+				"the depth is recomputed while holding depthMu for writing, in the critical section that stores it", "recalcDepth is evaluated without depthMu held for writing (held: "+la.HeldAt(c).String()+"): the walk over the peer set and the publication of its result are not atomic, a slower Reachable can overwrite a newer depth with a stale one")
+		}
+	}
+	r.Floor("C22.Lk2", "recalcDepth call sites", nrc, 3)
 
 	// Y1 recalcDepth purity
 	rd := w.Func(kadPkg, "recalcDepth")
